@@ -1042,14 +1042,27 @@ class YAMLPath:
 
         Returns:  (str) `value` with all `symbols` escaped
         """
-        escaped: str = value
-        for symbol in symbols:
-            replace_term: str = "\\{}".format(symbol)
-            oparts: List[str] = str(escaped).split(replace_term)
+        escaped: str = str(value)
+        if "\\" in symbols:
+            oparts: List[str] = escaped.split("\\\\")
             eparts: List[str] = []
             for opart in oparts:
-                eparts.append(opart.replace(symbol, replace_term))
-            escaped = replace_term.join(eparts)
+                eparts.append(opart.replace("\\", "\\\\"))
+            escaped = "\\\\".join(eparts)
+
+        # A symbol is already escaped only when an odd number of backslashes
+        # precedes it; \\. is an escaped backslash followed by a bare symbol.
+        rebuilt: List[str] = []
+        escape_next: bool = False
+        for char in escaped:
+            if escape_next:
+                escape_next = False
+            elif char == "\\":
+                escape_next = True
+            elif char in symbols:
+                rebuilt.append("\\")
+            rebuilt.append(char)
+        escaped = "".join(rebuilt)
         return escaped
 
     @staticmethod
@@ -1068,9 +1081,11 @@ class YAMLPath:
 
         Returns:  (str) `section` with all special symbols escaped
         """
+        # The section is data, not path text:  every backslash in it is a
+        # literal backslash.
         escaped = YAMLPath.ensure_escaped(
-            section,
-            '\\', str(pathsep), '(', ')', '[', ']', '^', '$', '%',
+            str(section).replace("\\", "\\\\"),
+            str(pathsep), '(', ')', '[', ']', '^', '$', '%',
             ' ', "'", '"'
         )
 
